@@ -191,6 +191,27 @@ pub mod verif_place_std2 {
     pub fn verif_clone_set(s: &HashSet<NodeId>) -> (r: HashSet<NodeId>)
         ensures r@ == s@,
     { unimplemented!() }
+    /// fastrand::f64(): some value; f64::powf: some value (the key values decide only WHICH candidates are drawn)
+    #[verifier::external_body]
+    pub fn verif_rand_f64() -> f64 { unimplemented!() }
+    #[verifier::external_body]
+    pub fn verif_powf(x: f64, y: f64) -> f64 { unimplemented!() }
+    /// `xs.iter().map(f).collect::<Result<Vec<_>, _>>()`: every element mapped in order, or the first error (std docs)
+    #[verifier::external_body]
+    pub fn verif_try_map_collect<F: Fn(&(NodeId, f64)) -> PlacementResult<(f64, NodeId)>>(xs: &[(NodeId, f64)], f: F) -> (r: PlacementResult<Vec<(f64, NodeId)>>)
+        requires forall|i: int| 0 <= i < xs@.len() ==> call_requires(f, (&#[trigger] xs@[i],)),
+        ensures r matches Ok(v) ==> v@.len() == xs@.len() && forall|i: int| 0 <= i < xs@.len() ==> call_ensures(f, (&xs@[i],), Ok(#[trigger] v@[i])),
+    { unimplemented!() }
+    /// `keys.sort_by(cmp)`: a permutation
+    #[verifier::external_body]
+    pub fn verif_sort_keys(w: &mut Vec<(f64, NodeId)>)
+        ensures final(w)@.len() == old(w)@.len(), final(w)@.to_multiset() == old(w)@.to_multiset(),
+    { unimplemented!() }
+    /// `keys.into_iter().take(k).map(|(_, id)| id).collect()`: the ids of the first min(k, len) entries, in order
+    #[verifier::external_body]
+    pub fn verif_take_ids(w: Vec<(f64, NodeId)>, k: usize) -> (r: Vec<NodeId>)
+        ensures r@.len() == (if k <= w@.len() { k as int } else { w@.len() as int }), forall|i: int| 0 <= i < r@.len() ==> #[trigger] r@[i] == w@[i].1,
+    { unimplemented!() }
     #[verifier::external_body]
     pub fn verif_strategy_name() -> String { unimplemented!() }
     #[verifier::external_body]
@@ -217,12 +238,6 @@ pub struct WeightedPlacementStrategy {
 }
 
 impl WeightedSampler {
-    /// (text pinned by hash, contract ASSUMED; exercised by the native search only)
-    /// Efraimidis-Spirakis draw: k names taken from the candidates, or an error
-    #[verifier::external_body]
-    pub fn sample_nodes(&mut self, candidates: &[(NodeId, f64)], k: usize) -> (r: PlacementResult<Vec<NodeId>>)
-        ensures r matches Ok(v) ==> v@.len() == k && forall|j: int| 0 <= j < v@.len() ==> exists|i: int| 0 <= i < candidates@.len() && (#[trigger] candidates@[i]).0 == #[trigger] v@[j],
-    { unimplemented!() }
     /// (Kani: c17_weight_is_finite_positive_or_error, complete) some weight or an error
     #[verifier::external_body]
     pub fn calculate_weight(&self, node_id: &NodeId, trust_score: f64, stability_score: f64, capacity_factor: f64, diversity_factor: f64,
@@ -235,6 +250,8 @@ impl DiversityEnforcer {
     { unimplemented!() }
 }
 
+/// x is the id of one of the weighted candidates
+pub open spec fn drawn_from(c: Seq<(NodeId, f64)>, x: NodeId) -> bool { exists|i: int| 0 <= i < c.len() && (#[trigger] c[i]).0 == x }
 /// ids of a selection
 pub open spec fn ids(s: Seq<SelT>) -> Seq<NodeId> { s.map_values(|e: SelT| e.0) }
 pub open spec fn distinct(v: Seq<NodeId>) -> bool { forall|i: int, j: int| 0 <= i < j < v.len() ==> v[i] != v[j] }
